@@ -24,6 +24,10 @@ deriving DecidableEq, Repr, Inhabited
 structure Operation where
   obj : Nat
   action : Action
+  /-- the operation waits until the object is available (`lock`, `read`, `write`, `recv`, an unnotified
+  `Notify::wait`) as opposed to an attempt that fails when it is not (`try_lock`, …): only a waiting thread is
+  blocked when another thread takes the object first (repair of finding F9) -/
+  blocking : Bool := false
 deriving DecidableEq, Repr, Inhabited
 
 /-- `access::Access` -/
@@ -47,6 +51,9 @@ structure Thread where
   token : Bool := false
   /-- blocked in `park` (as opposed to blocked on a lock, a join, …): only then does `unpark` wake it -/
   parked : Bool := false
+  /-- what the threads that called `unpark` had done up to then; acquired by the `park` that consumes the unpark
+  or is woken by it, not before (repair of finding F17) -/
+  unparkCaus : VV := VV.zero
   operation : Option Operation := none
   causality : VV := VV.zero
   released : VV := VV.zero
@@ -71,15 +78,23 @@ def wake (t : Thread) : Thread := if t.isBlocked then t.setRunnable else t
 /-- `Thread::set_yield` (`id` is the thread's own index) -/
 def setYield (t : Thread) (id : Nat) : Thread :=
   { t with state := .yield, lastYield := some (t.causality.get id), yieldCount := t.yieldCount + 1 }
-/-- `Thread::set_unparked`: a thread blocked in `park` is woken; any other live thread (running, yielded,
-blocked on something else) stores the unpark for a future `park` -/
+/-- `Thread::acquire_unpark`: the `park` call returns because of an `unpark`: synchronise with the unparkers -/
+def acquireUnpark (t : Thread) : Thread :=
+  { t with causality := t.causality.join t.unparkCaus, unparkCaus := VV.zero }
+/-- `Thread::set_unparked`: a thread blocked in `park` is woken (and acquires); any other live thread (running,
+yielded, blocked on something else) stores the unpark for a future `park` -/
 def setUnparked (t : Thread) : Thread :=
-  if t.parked then t.setRunnable
+  if t.parked then t.setRunnable.acquireUnpark
   else if !t.isTerminated then { t with token := true }
   else t
 /-- `Thread::unpark` -/
 def unpark (t : Thread) (unparker : Thread) : Thread :=
-  ({ t with causality := t.causality.join unparker.causality }).setUnparked
+  ({ t with unparkCaus := t.unparkCaus.join unparker.causality }).setUnparked
+/-- what `thread::Set::wake` does to the woken thread: the waker's past happens-before its continuation; it
+becomes runnable if it blocked itself with `rt::block` (blocked, not parked) -/
+def wakeFrom (t : Thread) (waker : Thread) : Thread :=
+  let t := { t with causality := t.causality.join waker.causality }
+  if t.isBlocked && !t.parked then t.setRunnable else t
 end Thread
 
 /-- `thread::Set` -/
@@ -123,6 +138,10 @@ def activeAtomicVersion (s : Threads) : Nat := s.caus.get s.activeId
 def unpark (s : Threads) (id : Nat) : Threads :=
   if id == s.activeId then s.modifyActive Thread.setUnparked
   else s.modify id fun t => t.unpark s.activeT
+
+/-- `Set::wake` -/
+def wake (s : Threads) (id : Nat) : Threads :=
+  if id == s.activeId then s else s.modify id fun t => t.wakeFrom s.activeT
 
 /-- `Set::seq_cst_fence` -/
 def seqCstFence (s : Threads) : Threads :=
